@@ -33,6 +33,8 @@ pub const LEXEMES: &[&str] = &[
     "\u{e9}", "\u{20ac}", "\u{1d11e}", "@", "\\", "`", "\u{2028}", "\u{c}",
     // characters that tools like to normalise away: byte order mark, NUL, zero-width space, NEL, soft hyphen
     "\u{feff}", "\0", "\u{200b}", "\u{85}", "\u{ad}",
+    // letters whose case mapping changes the byte length (dotted capital I, sharp s, Kelvin sign)
+    "\u{130}", "\u{df}", "\u{212a}",
 ];
 
 /// Hand-written snippets: together they use every statement, body item, type and value form of syntax.md.
@@ -215,7 +217,7 @@ pub fn split_pieces(text: &str) -> Vec<(usize, usize, PieceKind)> {
 }
 
 pub const UNTERMINATED: &[&str] = &["\"abc", "[{ abc", "/* abc", "#ifdef M\n", "#ifndef M\n", "#ifdef M\n#else\n", "#ifdef\n", "#define\n", "( [ {", "!cond(", "<"];
-pub const NON_ASCII: &[&str] = &["\u{e9}", "\u{20ac}", "\u{1d11e}", "\u{a0}", "\u{2028}", "\u{3042}\u{3044}", "\u{feff}", "\u{200b}", "\u{85}", "\0"];
+pub const NON_ASCII: &[&str] = &["\u{e9}", "\u{20ac}", "\u{1d11e}", "\u{a0}", "\u{2028}", "\u{3042}\u{3044}", "\u{feff}", "\u{200b}", "\u{85}", "\0", "\u{130}", "\u{df}x", "\u{212a}"];
 
 fn non_space_indices(pieces: &[(usize, usize, PieceKind)]) -> Vec<usize> {
     pieces.iter().enumerate().filter(|(_, p)| p.2 != PieceKind::Space).map(|(i, _)| i).collect()
